@@ -287,6 +287,7 @@ class ComposedNode(ConfigNode):
             if not isinstance(other, ComposedNode):
                 return ConfigNode.ayns.on_merge_impl(self, path, other)
 
+            removed = None
             if other.ayns.delete:
                 removed = set()
                 def maybe_keep(node_path, node):
@@ -308,7 +309,8 @@ class ComposedNode(ConfigNode):
             for key, value in other._children.items():
                 child = self.ayns.get_child(key, None)
                 if child is None:
-                    value.ayns._require_all_new(path + [key], f'last parent: {_this_path!r}, from file: {self.ayns.source_file!r}')
+                    # (what the deleting "other" has just removed from "self" did exist: writing it again creates nothing)
+                    value.ayns._require_all_new(path + [key], f'last parent: {_this_path!r}, from file: {self.ayns.source_file!r}', exceptions=removed)
                     self.ayns.set_child(key, value)
                 else:
                     merge = isinstance(child, ComposedNode)
